@@ -1,0 +1,36 @@
+//go:build verif
+
+package internal
+
+import "sync/atomic"
+
+// Verification hooks (build tag verif). With the tag off verifOn is a false
+// constant and every `if verifOn { ... }` line folds away.
+const verifOn = true
+
+// VerifHandler receives every hook point reached by the code. It is installed
+// by the verification harness; nil means hooks are inert.
+type VerifHandler func(point int, a, b, c any, n []int64)
+
+var verifHandler atomic.Pointer[VerifHandler]
+
+func SetVerifHandler(h VerifHandler) {
+	if h == nil {
+		verifHandler.Store(nil)
+		return
+	}
+	verifHandler.Store(&h)
+}
+
+func verifAt(point int, a, b, c any, n ...int64) {
+	if h := verifHandler.Load(); h != nil {
+		(*h)(point, a, b, c, n)
+	}
+}
+
+func verifB(b bool) int64 {
+	if b {
+		return 1
+	}
+	return 0
+}
